@@ -84,7 +84,7 @@ func (e *Exec) tryIntrinsic(fn *ssa.Function, args []Value) (Value, bool) {
 type FD struct {
 	id         int
 	kind       string // sock | eventfd | epoll
-	peer       int
+	peer       *FD // the other end of a socketpair (a pointer: descriptor numbers are reused after close)
 	rx         []*Term
 	closed     bool
 	peerClosed bool
@@ -117,9 +117,17 @@ func newEnv() *Env {
 }
 
 func (env *Env) newFD(kind string) *FD {
-	fd := &FD{id: env.nextFd, kind: kind, peer: -1}
+	// POSIX: the lowest descriptor number that is not open (numbers are reused after close, which is
+	// what a per-descriptor table that outlives its connection trips over)
+	id := env.nextFd
+	for {
+		if f, ok := env.fds[id]; !ok || f.closed {
+			break
+		}
+		id++
+	}
+	fd := &FD{id: id, kind: kind}
 	env.fds[fd.id] = fd
-	env.nextFd++
 	return fd
 }
 
@@ -168,7 +176,7 @@ func (e *Exec) doWrite(fd *FD, data []*Term) Value {
 		fd.count++
 		return TupleV{ci(e, 8), e.errno(0)}
 	case "sock":
-		peer := e.env.fds[fd.peer]
+		peer := fd.peer
 		if peer == nil || peer.closed {
 			return TupleV{ci(e, -1), e.errno(ePIPE)}
 		}
@@ -202,7 +210,7 @@ func init() {
 	reg(func(e *Exec, fn *ssa.Function, args []Value) Value {
 		a := &ArrV{Cells: []*Cell{{V: ci(e, 0)}, {V: ci(e, 0)}}}
 		x, y := e.env.newFD("sock"), e.env.newFD("sock")
-		x.peer, y.peer = y.id, x.id
+		x.peer, y.peer = y, x
 		a.Cells[0].V, a.Cells[1].V = ci(e, int64(x.id)), ci(e, int64(y.id))
 		return TupleV{a, e.errno(0)}
 	}, "golang.org/x/sys/unix.Socketpair", "syscall.Socketpair")
@@ -256,7 +264,7 @@ func init() {
 		}
 		fd.closed = true
 		fd.registered = false
-		if p := e.env.fds[fd.peer]; p != nil {
+		if p := fd.peer; p != nil {
 			p.peerClosed = true
 		}
 		return e.errno(0)
@@ -298,6 +306,9 @@ func init() {
 	}, "time.Now")
 	reg(func(e *Exec, fn *ssa.Function, args []Value) Value {
 		n := args[0].(*Term)
+		if n.IsConst() && n.C == 1 {
+			return e.tf.Const(64, 0) // Intn(1) is 0 whatever the source
+		}
 		e.env.randUsed = true
 		r := e.fresh("rand", 64)
 		e.inputLog = append(e.inputLog, InputRec{Label: "rand", Kind: "rand", Terms: []*Term{r}, W: 64})
